@@ -51,6 +51,10 @@ VARIANTS = {
     "scratch":     {"NoRace": False, "SeqEquiv": False, "SharedUnchanged": False},
     "sortinplace": {"NoRace": False, "SeqEquiv": False, "SharedUnchanged": True},
     "pkgwrite":    {"NoRace": False, "SeqEquiv": False, "SharedUnchanged": False},
+    # package-level table built lazily; state captured by a closure of the font; patch-and-restore in place
+    "pkglazy":        {"NoRace": False, "SeqEquiv": True,  "SharedUnchanged": False},
+    "closurecache":   {"NoRace": False, "SeqEquiv": False, "SharedUnchanged": False},
+    "inplacerestore": {"NoRace": False, "SeqEquiv": False, "SharedUnchanged": True},
 }
 INVS = ("NoRace", "SeqEquiv", "SharedUnchanged")
 
@@ -105,8 +109,8 @@ def _model(ctx):
     neg = _cfg("SharedFontNeg.cfg")
     table = {}
     for variant, expect in VARIANTS.items():
-        if ctx.quick() and variant not in ("headpatch", "lazyrev", "scratch"):
-            continue        # the three hidden writes the property names; all five in the thorough tier
+        if ctx.quick() and variant not in ("headpatch", "pkglazy", "closurecache", "inplacerestore"):
+            continue        # one per kind of hidden state; all eight in the thorough tier
         base = _set_const(neg, Variant='"%s"' % variant)
         r = ctx.tlc("SharedFont", cfg="SFneg.cfg", files={"SFneg.cfg": base}, timeout=600,
                     label="negative configuration %s (must fail)" % variant)
@@ -132,20 +136,24 @@ def _model(ctx):
 
 # --------------------------------------------------------------------------- generation
 def _combos(ctx):
-    # (N, K, MaxPar, behaviours, depth)
+    # (N, K, MaxPar, MaxOps, behaviours, depth); MaxOps 0 = any operations, 1 = one operation hammered from all
+    # goroutines, 2 = a pair of operations
     if ctx.quick():
-        return [(2, 2, 2, 45, 120), (2, 3, 2, 36, 160), (4, 2, 4, 36, 200), (16, 2, 16, 18, 800)]
-    return [(2, 2, 2, 260, 120), (2, 3, 2, 200, 160), (3, 2, 3, 130, 160), (4, 2, 2, 130, 200), (4, 2, 4, 200, 200),
-            (4, 3, 4, 104, 300), (16, 2, 4, 52, 800), (16, 2, 16, 104, 800)]
+        return [(2, 2, 2, 0, 39, 120), (2, 3, 2, 0, 26, 160), (4, 2, 4, 0, 39, 200), (16, 2, 16, 0, 26, 800),
+                (4, 2, 4, 1, 500, 200), (4, 2, 4, 2, 104, 200)]
+    return [(2, 2, 2, 0, 300, 120), (2, 3, 2, 0, 210, 160), (3, 2, 3, 0, 150, 160), (4, 2, 2, 0, 150, 200),
+            (4, 2, 4, 0, 210, 200), (4, 3, 4, 0, 120, 300), (16, 2, 4, 0, 60, 800), (16, 2, 16, 0, 120, 800),
+            (4, 2, 4, 1, 1500, 200), (8, 2, 8, 1, 700, 400), (4, 2, 4, 2, 600, 200), (2, 3, 2, 2, 300, 160)]
 
 
 def _generate(ctx):
+    """Returns (general cases, hammer cases by operation, pair cases) -- all behaviours of SharedFont.tla."""
     gen = _cfg("SharedFontGen.cfg")
-    cases = []
-    for (n, k, mp, num, depth) in _combos(ctx):
-        text = _set_const(gen, N=n, K=k, MaxPar=mp)
+    general, hammer, pairs = [], collections.defaultdict(list), []
+    for (n, k, mp, mo, num, depth) in _combos(ctx):
+        text = _set_const(gen, N=n, K=k, MaxPar=mp, MaxOps=mo)
         r = ctx.tlc("SharedFont", cfg="SFgen.cfg", files={"SFgen.cfg": text}, workers=1, simulate=num, depth=depth,
-                    timeout=600, label="schedule generation N=%d K=%d MaxPar=%d (simulate)" % (n, k, mp))
+                    timeout=600, label="schedule generation N=%d K=%d MaxPar=%d MaxOps=%d (simulate)" % (n, k, mp, mo))
         if r.violated:
             raise vlib.Infra("generation run violated %s -- the spec is wrong" % r.violated)
         if len(r.cases) < num // 2:
@@ -153,15 +161,33 @@ def _generate(ctx):
         for c in r.cases:
             if not (c.get("equiv") and c.get("unchanged")):
                 raise vlib.Infra("TLC emitted a behaviour that breaks the model's own verdict: %r" % c)
-            cases.append({"n": c["n"], "k": c["k"], "maxpar": c["maxpar"], "prog": c["prog"], "sched": c["sched"]})
-    return cases
+            case = {"n": c["n"], "k": c["k"], "maxpar": c["maxpar"], "maxops": c["maxops"], "prog": c["prog"],
+                    "sched": c["sched"]}
+            used = set(o for p in c["prog"] for o in p)
+            if mo == 1:
+                if len(used) != 1:
+                    raise vlib.Infra("MaxOps=1 behaviour with operations %s" % used)
+                hammer[used.pop()].append(case)
+            elif mo == 2:
+                pairs.append(case)
+            else:
+                general.append(case)
+    return general, hammer, pairs
 
 
 # --------------------------------------------------------------------------- harness runs
+def _bytes_dir(ctx):
+    """Files of the read-back fonts (written by `c16 fonts`), so that a cold process only reads."""
+    d = os.path.join(ctx.scratch, "c16-bytes")
+    os.makedirs(d, exist_ok=True)
+    return d
+
+
 def _harness(ctx, argv, env=None, timeout=900):
     e = dict(os.environ)
     e["VERIF_SEED"] = str(ctx.seed)
     e["VERIF_TIER"] = ctx.tier
+    e["C16_BYTES"] = _bytes_dir(ctx)
     e.update(env or {})
     try:
         p = subprocess.run(argv, stdout=subprocess.PIPE, stderr=subprocess.PIPE, env=e, timeout=timeout)
@@ -173,9 +199,12 @@ def _harness(ctx, argv, env=None, timeout=900):
 _FATAL = re.compile(r"fatal error: (concurrent map[^\n]*)")
 
 
-def _run_font(ctx, binp, font, cases_path, trace, reps, racelog=None):
+def _run_font(ctx, binp, font, cases_path, trace, reps, racelog=None, cold=False):
     """One harness process = one shared font.  Returns (fatal message or None)."""
     env = {"C16_REPS": str(reps)}
+    if cold:
+        env["C16_COLD"] = "1"
+        env["C16_SEQOPS"] = "cases"
     if racelog:
         env["GORACE"] = "halt_on_error=0 exitcode=0 history_size=5 log_path=%s" % racelog
     rc, err = _harness(ctx, [binp, "run", font, cases_path or "-", trace], env=env)
@@ -319,11 +348,25 @@ class State:
         self.skipped = 0
         self.alone_done = set()
         self.alone_dir = None
+        self.cases_by_key = {}
         self.benign = []
         self.extra_alone = {}
 
 
-def _single_case_trace(ctx, st, font, case, repeat, tag):
+def _single_case_trace(ctx, st, font, case, repeat, tag, cold=False):
+    """Run one case alone (cold: in processes of their own, one per repetition, nothing warmed up)."""
+    if cold:
+        allev, allraces = [], []
+        for _ in range(min(repeat, 6)):
+            evs, races, fatal = _single_case_trace(ctx, st, font, case, 1, tag)
+            if fatal:
+                return evs, races, fatal
+            allraces += races
+            if races or not allev:
+                allev = evs
+            if races:
+                break
+        return allev, allraces, None
     d = ctx.subdir("iso")
     c = dict(case)
     c["font"] = font
@@ -332,13 +375,13 @@ def _single_case_trace(ctx, st, font, case, repeat, tag):
     vlib.write_ndjson(cp, [c])
     tp = os.path.join(d, "trace.ndjson")
     rl = os.path.join(d, "race")
-    fatal = _run_font(ctx, st.bin_race, font, cp, tp, 3, racelog=rl)
+    fatal = _run_font(ctx, st.bin_race, font, cp, tp, 3, racelog=rl, cold=bool(case.get("cold")))
     races = _parse_races(rl)
     events = vlib.read_ndjson(tp) if os.path.exists(tp) else []
     return events, races, fatal
 
 
-def _reproduce(ctx, st, font, bad, events_of_font):
+def _reproduce(ctx, st, font, bad, events_of_font, key=None):
     """bad = the rejected event.  Re-run in isolation; report only what reproduces.  Returns True if handled
     (violation reported or benign explanation found), raises Infra when nothing reproduces."""
     kind = bad["ev"]
@@ -351,14 +394,15 @@ def _reproduce(ctx, st, font, bad, events_of_font):
         return True        # six distinct violations are reported; further rejected events are only counted
     n0 = len(ctx.violations) + sum(st.reported.values())
     try:
-        return _reproduce1(ctx, st, font, bad, events_of_font)
+        return _reproduce1(ctx, st, font, bad, events_of_font, key)
     finally:
         if len(ctx.violations) + sum(st.reported.values()) > n0:
             st.confirmed[pre] = 1
 
 
-def _reproduce1(ctx, st, font, bad, events_of_font):
+def _reproduce1(ctx, st, font, bad, events_of_font, key=None):
     kind = bad["ev"]
+    was_cold = any(e.get("cold") for e in events_of_font if e.get("ev") == "case") or bool(key and "/c-" in key)
     if kind == "seq":
         # V1: the measured footprint is not inside the declared one.  Re-measure that font alone.
         d = ctx.subdir("iso")
@@ -383,14 +427,14 @@ def _reproduce1(ctx, st, font, bad, events_of_font):
             ops.append("Clone")      # the other party read data shared with the font
         ops = ops or ["Write"]
         a, b = (ops + ops)[:2]
-        case = {"id": 900001, "n": 2, "k": 1, "maxpar": 2, "prog": [[a], [b]], "fresh": True,
+        case = {"id": 900001, "n": 2, "k": 1, "maxpar": 2, "prog": [[a], [b]], "fresh": True, "cold": was_cold,
                 "sched": [["S", 1], ["S", 2], ["F", 1], ["F", 2]]}
-        evs, races, fatal = _single_case_trace(ctx, st, font, case, 12, "race")
+        evs, races, fatal = _single_case_trace(ctx, st, font, case, 12, "race", cold=was_cold)
         if not races and not fatal:
-            # fall back to the original cases of that font
-            orig = [c for c in st.cases.values() if c["font"] == font][:8]
+            # fall back to the original cases of that process
+            orig = (st.cases_by_key.get(key) or [c for c in st.cases.values() if c["font"] == font])[:8]
             for c in orig:
-                evs, races, fatal = _single_case_trace(ctx, st, font, c, 2, "race")
+                evs, races, fatal = _single_case_trace(ctx, st, font, c, 2, "race", cold=was_cold)
                 if races or fatal:
                     case = c
                     break
@@ -420,7 +464,7 @@ def _reproduce1(ctx, st, font, bad, events_of_font):
                 with concurrent.futures.ThreadPoolExecutor(max_workers=max(2, min(8, ctx.workers // 2))) as ex:
                     list(ex.map(lambda f: _alone(ctx, st, f, bad["op"]), others))
                 return False     # caller re-validates with the larger run-alone sets
-        evs, races, fatal = _single_case_trace(ctx, st, font, case, 25, kind)
+        evs, races, fatal = _single_case_trace(ctx, st, font, case, 25, kind, cold=bool(case.get("cold")))
         if fatal:
             _violation(ctx, st, "concurrent calls crash the process on shared font %s: fatal error: %s (operations on the "
                           "stacks: %s)" % (font, fatal["msg"], fatal["ops"]),
@@ -492,70 +536,102 @@ def run(ctx):
     ctx.cov["fingerprint_probes_seen"] = sum(f["probes_seen"] for f in fonts)
 
     # schedules from TLC, dealt to the fonts
-    cases = _generate(ctx)
-    per_font = collections.defaultdict(list)
+    general, hammer, pairs = _generate(ctx)
     ids = [f["id"] for f in fonts]
-    for i, c in enumerate(cases):
-        c["id"] = i + 1
-        c["font"] = ids[i % len(ids)]
-        c["repeat"] = 1
-        c["fresh"] = (i // len(ids)) % 2 == 0     # every other case of a font: a fresh, never used instance
-        per_font[c["font"]].append(c)
-        st.cases[c["id"]] = c
-    ctx.sample({"tlc_schedule": cases[0]})
+    nid = [0]
 
-    # V1 (plain build, more repetitions) and V2 (race build) -- one process per font
+    def adopt(c, font, **kw):
+        c = dict(c)
+        nid[0] += 1
+        c.update({"id": nid[0], "font": font, "repeat": 1, "fresh": False, "cold": False})
+        c.update(kw)
+        st.cases[c["id"]] = c
+        return c
+
+    warm = collections.defaultdict(list)     # race build, after the sequential phase
+    plain = collections.defaultdict(list)    # plain build: the same call hammered, repeated (results only)
+    coldp = []                               # (font, op, [case]): race build, a process of its own, cases first
+    for i, c in enumerate(general):
+        f = ids[i % len(ids)]
+        warm[f].append(adopt(c, f, fresh=(i // len(ids)) % 2 == 0))   # every other case: a never used instance
+    for i, c in enumerate(pairs):
+        f = ids[i % len(ids)]
+        warm[f].append(adopt(c, f, fresh=(i // len(ids)) % 2 == 1))
+    cold_ops = ("Write", "Layout", "MakeGlyphNames", "ExplainGsub", "ExplainGpos", "Subset", "AsCFFWrite",
+                "GetFontInfo", "GsubApply")
+    rep_plain = ctx.pick(6, 25)
+    missing = set()
+    for f in ids:
+        for op in st.fonts[f]["ops"]:
+            hs = hammer.get(op, [])
+            if not hs:
+                missing.add(op)
+                continue
+            k = ids.index(f)
+            warm[f].append(adopt(hs[k % len(hs)], f, fresh=True))
+            plain[f].append(adopt(hs[(k + 1) % len(hs)], f, fresh=True, repeat=rep_plain))
+            if op in cold_ops or not ctx.quick():
+                coldp.append((f, op, [adopt(hs[(k + 2) % len(hs)], f, fresh=True, cold=True)]))
+    if missing:
+        raise vlib.Infra("no hammer schedule generated for operations %s" % sorted(missing))
+    cases = list(st.cases.values())
+    ctx.sample({"tlc_schedule": {k: v for k, v in cases[0].items()}})
+
+    # one harness process per job.  v1: plain build, every operation alone with fingerprints (more repetitions)
+    # + hammer cases; v2: race build, sequential phase + cases; c-<op>: race build, cold.
     reps1 = ctx.pick(6, 25)
     jobs = []
     for f in ids:
-        jobs.append(("v1", f))
-        jobs.append(("v2", f))
+        jobs.append({"key": "%s/v1" % f, "font": f, "bin": st.bin, "cases": plain[f], "reps": reps1, "race": False, "cold": False})
+        jobs.append({"key": "%s/v2" % f, "font": f, "bin": st.bin_race, "cases": warm[f], "reps": 3, "race": True, "cold": False})
+    for f, op, cs in coldp:
+        jobs.append({"key": "%s/c-%s" % (f, op), "font": f, "bin": st.bin_race, "cases": cs, "reps": 2, "race": True, "cold": True})
+    for j in jobs:
+        st.cases_by_key[j["key"]] = j["cases"]
 
-    def work(job):
-        mode, f = job
-        tp = os.path.join(d, "%s-%s.ndjson" % (mode, f))
-        if mode == "v1":
-            return job, tp, _run_font(ctx, st.bin, f, None, tp, reps1), []
-        cp = os.path.join(d, "cases-%s.ndjson" % f)
-        vlib.write_ndjson(cp, per_font[f])
-        rl = os.path.join(d, "race-%s" % f)
-        fatal = _run_font(ctx, st.bin_race, f, cp, tp, 3, racelog=rl)
-        return job, tp, fatal, _parse_races(rl)
+    def work(job, suffix=""):
+        base = os.path.join(d, job["key"].replace("/", "-") + suffix)
+        tp = base + ".ndjson"
+        cp = None
+        if job["cases"]:
+            cp = base + ".cases"
+            vlib.write_ndjson(cp, job["cases"])
+        rl = (base + ".race") if job["race"] else None
+        fatal = _run_font(ctx, job["bin"], job["font"], cp, tp, job["reps"], racelog=rl, cold=job["cold"])
+        return job, tp, fatal, (_parse_races(rl) if rl else [])
 
     traces = {}
     nraces = 0
     with concurrent.futures.ThreadPoolExecutor(max_workers=max(2, min(8, ctx.workers // 2))) as ex:
         results = list(ex.map(work, jobs))
-    for (mode, f), tp, fatal, races in results:
-        key = "%s/%s" % (f, mode)
+    for job, tp, fatal, races in results:
+        key, f = job["key"], job["font"]
         if fatal:
             # the process died of the runtime's own concurrent-map check (its trace is lost, the race
             # detector's reports are not)
             nraces += len(races)
-            if races and os.path.exists(os.path.join(d, "v1-%s.ndjson" % f)):
-                evs = vlib.read_ndjson(os.path.join(d, "v1-%s.ndjson" % f))
+            v1 = os.path.join(d, "%s-v1.ndjson" % f)
+            if races and key != "%s/v1" % f and os.path.exists(v1) and os.path.getsize(v1) > 0:
+                evs = [e for e in vlib.read_ndjson(v1) if e["ev"] in ("reset", "seq")]
                 traces[key] = _insert_after_reset(evs, _race_events(f, races))
-                ctx.notes.append("font %s: the race-detector process crashed with %r; its race reports are judged "
-                                 "with the footprint trace of the font" % (f, fatal["msg"]))
+                ctx.notes.append("%s: the process crashed with %r; its race reports are judged with the footprint "
+                                 "trace of the font" % (key, fatal["msg"]))
                 continue
             again = None
-            for _ in range(5):
-                again = _run_font(ctx, st.bin_race, f, os.path.join(d, "cases-%s.ndjson" % f), tp + ".again", 2,
-                                  racelog=os.path.join(d, "race2-%s" % f))
+            for n in range(5):
+                again = work(job, ".again%d" % n)[2]
                 if again:
                     break
             if not again:
-                raise vlib.Infra("fatal error %r on font %s did not reproduce" % (fatal["msg"], f))
+                raise vlib.Infra("fatal error %r in %s did not reproduce" % (fatal["msg"], key))
             _violation(ctx, st, "concurrent read-only calls crash the process on shared font %s (%s): fatal error: %s "
                        "(operations on the stacks: %s)" % (f, st.fonts[f]["desc"], again["msg"], again["ops"]),
                        sig={"kind": "fatal", "msg": again["msg"]},
-                       case={"kind": "font", "font": f, "cases": per_font[f][:50]})
+                       case={"kind": "font", "font": f, "cold": job["cold"], "cases": job["cases"][:50]})
             continue
         evs = vlib.read_ndjson(tp)
         nraces += len(races)
         traces[key] = _insert_after_reset(evs, _race_events(f, races))
-        for r in races[:3]:
-            st.race_reports = getattr(st, "race_reports", []) + [r]
     st_traces = traces
     order = sorted(st_traces)
     _judge(ctx, st, st_traces, len(cases))
@@ -576,6 +652,9 @@ def run(ctx):
     ctx.cov["sequential_calls_fingerprinted"] = seq
     ctx.cov["overlapping_operation_pairs"] = len(pairs)
     ctx.cov["goroutines"] = sorted(set(c["n"] for c in cases))
+    ctx.cov["processes"] = {"footprint_and_hammer_plain": len(ids), "race_warm": len(ids), "race_cold": len(coldp)}
+    ctx.cov["hammer_cases"] = sum(len(v) for v in plain.values())
+    ctx.cov["cold_cases"] = len(coldp)
     ctx.cov["race_reports"] = nraces
     if st.skipped:
         ctx.notes.append("%d further rejected events were not reproduced individually (reproduction budget)" % st.skipped)
@@ -599,7 +678,7 @@ def run(ctx):
                 break
         break
     for k in order:
-        if k.endswith("/v2"):
+        if not k.endswith("/v1"):
             for e in st_traces[k]:
                 if e["ev"] == "conc" and e["digest"] != "n/a":
                     ctx.sample({"recorded_event": e})
@@ -648,7 +727,7 @@ def _judge(ctx, st, traces, ncases):
                 keep.append(e)
             start[k] = len(allev)
             allev += keep
-        label = ("SharedFontTrace: %d fonts x (V1, V2), %d schedules" % (len(remaining) // 2, ncases)) if first \
+        label = ("SharedFontTrace: %d processes, %d schedules" % (len(remaining), ncases)) if first \
             else "SharedFontTrace: remaining %d processes" % len(remaining)
         line = _validate(ctx, allev, label, (ncases + len(remaining)) if first else 0)
         first = False
@@ -656,7 +735,7 @@ def _judge(ctx, st, traces, ncases):
             return
         k = max((kk for kk in remaining if start[kk] < line), key=lambda kk: start[kk])
         evs = allev[start[k]:]
-        handled = _reproduce(ctx, st, fontmap[k], allev[line - 1], evs)
+        handled = _reproduce(ctx, st, fontmap[k], allev[line - 1], evs, k)
         i = remaining.index(k)
         remaining = remaining[i + 1:] if handled else remaining[i:]
     if not ctx.violations and not ctx.known_hits:
@@ -685,7 +764,7 @@ def replay(ctx, obj):
         case = dict(case)
         case.setdefault("id", 1)
         st.cases[case["id"]] = dict(case, font=font)
-        evs, races, fatal = _single_case_trace(ctx, st, font, case, 25, "replay")
+        evs, races, fatal = _single_case_trace(ctx, st, font, case, 25, "replay", cold=bool(case.get("cold")))
         if fatal:
             ctx.violation("fatal error: %s" % fatal["msg"], sig={"kind": "fatal", "msg": fatal["msg"]}, case=c)
             return
